@@ -1,11 +1,16 @@
 #!/bin/sh
-# Build the OCaml runner from the freshly extracted model (coq/tt_model.ml).
+# Build the OCaml runner of one property from its freshly extracted model:
+#   runner/build.sh c20   ->  build/runner/c20/tt-runner
+# coq/tt_<id>.ml(i) (written by coqc on coq/Extract/ExC<NN>.v) is copied in as
+# module Tt_model, so glue.ml and cmds_<id>.ml are the same for every property.
 set -e
+id=$1
 here=$(cd "$(dirname "$0")" && pwd)
-out=$here/../build/runner
+out=$here/../build/runner/$id
 mkdir -p "$out"
-rm -f "$out"/*.ml "$out"/*.mli
-cp "$here/../coq/tt_model.ml" "$here/../coq/tt_model.mli" "$here"/*.ml "$out"/
+rm -f "$out"/*.ml "$out"/*.mli "$out"/*.cm* "$out"/*.o
+cp "$here/../coq/tt_$id.ml" "$out/tt_model.ml"
+cp "$here/../coq/tt_$id.mli" "$out/tt_model.mli"
+cp "$here/sexp.ml" "$here/glue.ml" "$here/registry.ml" "$here/main.ml" "$here/cmds_$id.ml" "$out"/
 cd "$out"
-cmds=$(ls cmds_*.ml | sort)
-ocamlfind ocamlopt -O2 -w -a -package unix -linkpkg tt_model.mli tt_model.ml sexp.ml glue.ml registry.ml $cmds main.ml -o tt-runner 2>&1
+ocamlfind ocamlopt -O2 -w -a -package unix -linkpkg tt_model.mli tt_model.ml sexp.ml glue.ml registry.ml cmds_$id.ml main.ml -o tt-runner 2>&1
